@@ -48,7 +48,11 @@ def check(ctx):
     ctx.need("validate" in [a.arg for a in lt.params], "load_tree lost its validate parameter")
 
     def cut_validate_false(a, b, lbl):
-        return not (a.kind == "test" and isinstance(a.ast, ast.Name) and a.ast.id == "validate" and lbl is False)
+        if a.kind == "test" and isinstance(a.ast, ast.Name) and lbl is False:
+            srcs = value_sources(lt, a.ast, a)
+            if a.ast.id == "validate" or (srcs and all(k == "param" and p == "validate" for k, p in srcs)):
+                return False
+        return True
 
     p = path_avoiding(an, lt, g.entry, lambda n: n is g.exit, lambda n: n in vcalls, edge_filter=cut_validate_false)
     ctx.ob("load_tree.ends-in-validate", lt, "self.validate() on every normal path unless validate is false", p is None,
